@@ -583,6 +583,7 @@ func prepareSnapshotForStore(store *KVStore, machineConfig MachineConfig,
 
 	hasBackup, _ := checkLocalBackup(store, raftSnapshot)
 	if hasBackup {
+		verifCrashPoint("fs.local.ok", raftSnapshot.Metadata.Term, raftSnapshot.Metadata.Index)
 		return nil
 	}
 	if clusterInfo == nil {
@@ -609,6 +610,7 @@ func prepareSnapshotForStore(store *KVStore, machineConfig MachineConfig,
 	if err != nil {
 		return err
 	}
+	verifCrashPoint("fs.mark.after", raftSnapshot.Metadata.Term, raftSnapshot.Metadata.Index)
 	// since most backup on local is not transferred by others,
 	// if we need reuse we need check all backups that has source node info,
 	// and skip the latest snap file in snap dir.
@@ -624,8 +626,10 @@ func prepareSnapshotForStore(store *KVStore, machineConfig MachineConfig,
 		localPath, stopChan)
 
 	postFileSync(newPath, srcInfo)
+	verifCrashPoint("fs.copy.after", raftSnapshot.Metadata.Term, raftSnapshot.Metadata.Index)
 	if err == nil {
 		rockredis.MarkCheckpointComplete(newPath)
+		verifCrashPoint("fs.complete.after", raftSnapshot.Metadata.Term, raftSnapshot.Metadata.Index)
 	}
 	return err
 }
